@@ -108,6 +108,17 @@ Theorem C17_acquire_is_steps : forall sf ns s i L' r, reach_any sf ns s -> pc s 
 Proof. exact acquire_refines. Qed.
 Print Assumptions C17_acquire_is_steps.
 
+(* The recycle rule, as far as the code guarantees it (this is the window left open in C17_stale_complete): recycle(t)
+   only drops a node that nobody holds and whose maxCommitTS is >= 2 physical minutes older than t; t is the start ts of
+   the acquiring lock (in-line) or the commit ts of a lock just released (spawned). Nothing relates t to the start ts of
+   transactions that are still running: a transaction more than 2 minutes older than t can miss a conflict.
+   (The log-level corollary "a missed release implies such a t had been seen" is not mechanised.) *)
+Theorem C17_recycle_rule : forall sf L sl t k, qwf L -> nodeK sf (recycle_slot L sl t) k <> nodeK sf L k ->
+  nodeK sf (recycle_slot L sl t) k = None /\ sf k = sl /\
+  exists n, nodeK sf L k = Some n /\ nval n = None /\ (phys (nmax n) + expire_ms <= phys t)%N.
+Proof. exact recycle_rule. Qed.
+Print Assumptions C17_recycle_rule.
+
 (* The composite release() of latch.go (run()) is the iteration of the atomic steps; it never panics *)
 Theorem C17_release_is_steps : forall sf ns s i L' wl pan, reach_any sf ns s -> sch s = SRel i [] ->
   release sf (lat s) i = (L', wl, pan) ->
@@ -164,4 +175,11 @@ Example C17_ex_seed5_client_blocks :
                         sch s, chan s))
              (run sf0 1 (tr_handoff ++ [LRel; LWake; LTrig; LAcq 2]) init_state)
   = Some (TDone, true, Some 1, TWait, [2], SIdle, []).
+Proof. vm_compute. reflexivity. Qed.
+
+(* recycle drops an unheld node older than 2 minutes, keeps a held one and a young one (one slot) *)
+Example C17_ex_recycle_rule :
+  let L := set_slot init_lat 0%N (mkSlot [mkNode 1%N 0%N None; mkNode 2%N 0%N (Some 3); mkNode 4%N (N.shiftl 100000%N 18%N) None] []) in
+  let L' := recycle_slot L 0%N (N.shiftl 130000%N 18%N) in
+  (holderK sf0 L' 2%N, maxK sf0 L' 4%N, nodeK sf0 L' 1%N, length (squeue (slots L' 0%N))) = (Some 3, N.shiftl 100000%N 18%N, None, 2).
 Proof. vm_compute. reflexivity. Qed.
